@@ -13,11 +13,16 @@ import (
 	zz "github.com/meshplus/bitxhub/internal/zzverif"
 )
 
+// zzSrcSvc is the id of the source service of the pipeline harnesses (a harness may pick an unusual one).
+var zzSrcSvc = "sA"
+
+func zzSrcFullID() string { return "1356:chA:" + zzSrcSvc }
+
 // zzInterchainWorld puts two available services (chA:sA -> chB:sB) and the hub id into the ledger.
 func zzInterchainWorld(exec *BlockExecutor) {
 	svcAddr := constant.ServiceMgrContractAddr.Address()
 	exec.ledger.SetState(constant.InterchainContractAddr.Address(), []byte(contracts.BitXHubID), []byte("1356"), nil)
-	exec.ledger.SetState(svcAddr, []byte(servicemgr.ServiceKey("chA:sA")), zzServiceJSON("chA", "sA", "serviceA", governance.GovernanceAvailable, map[string]struct{}{}), nil)
+	exec.ledger.SetState(svcAddr, []byte(servicemgr.ServiceKey("chA:"+zzSrcSvc)), zzServiceJSON("chA", zzSrcSvc, "serviceA", governance.GovernanceAvailable, map[string]struct{}{}), nil)
 	exec.ledger.SetState(svcAddr, []byte(servicemgr.ServiceKey("chB:sB")), zzServiceJSON("chB", "sB", "serviceB", governance.GovernanceAvailable, map[string]struct{}{}), nil)
 	acc, root := exec.ledger.FlushDirtyData()
 	_ = exec.ledger.StateLedger.Commit(0, acc, root)
@@ -25,7 +30,7 @@ func zzInterchainWorld(exec *BlockExecutor) {
 
 func zzRequestTx(index uint64, nonce uint64, hashN int) *pb.BxhTransaction {
 	return &pb.BxhTransaction{From: zzAddr(zzUsers[0]), To: constant.InterchainContractAddr.Address(), Nonce: nonce, TransactionHash: zzHash(hashN), Timestamp: 1,
-		IBTP: &pb.IBTP{From: "1356:chA:sA", To: "1356:chB:sB", Index: index, Type: pb.IBTP_INTERCHAIN, TimeoutHeight: 10}}
+		IBTP: &pb.IBTP{From: zzSrcFullID(), To: "1356:chB:sB", Index: index, Type: pb.IBTP_INTERCHAIN, TimeoutHeight: 10}}
 }
 
 func zzDelivered(im *pb.InterchainMeta, chain string) int {
@@ -92,7 +97,7 @@ func ZZH_C02_block_delivery() {
 		zz.Assert("C09.meta.interchain-count", exec.ledger.GetChainMeta().InterchainTxCount == accepted)
 	}
 	ic := &pb.Interchain{}
-	ok, data := exec.ledger.GetState(constant.InterchainContractAddr.Address(), []byte(contracts.INTERCHAINSERVICE_PREFIX+"-1356:chA:sA"))
+	ok, data := exec.ledger.GetState(constant.InterchainContractAddr.Address(), []byte(contracts.INTERCHAINSERVICE_PREFIX+"-"+zzSrcFullID()))
 	if ok {
 		_ = ic.Unmarshal(data)
 	}
